@@ -33,6 +33,13 @@ class Valuation:
       term = Fraction(c)
       for a, e in k:
         if a not in self.assign:
+          if a.kind in ("min", "max") and a.args:
+            vals = [self.value(x) for x in a.args]
+            term *= Fraction(min(vals) if a.kind == "min" else max(vals)) ** e
+            continue
+          if a.kind == "abs" and len(a.args) == 1:
+            term *= abs(self.value(a.args[0])) ** e
+            continue
           raise Unknown("term %r is not a comparison operand of the fragment" % (a,))
         term *= Fraction(self.assign[a]) ** e
       tot += term
@@ -57,6 +64,34 @@ def eval_cond(c, val):
   raise Unknown("condition %s outside the comparison fragment" % k)
 
 
+def leaf_atoms(p):
+  """Top-level atoms of p with min / max / abs opened up (their operands are ordinary comparison operands)."""
+  out = set()
+  for a in as_poly(p).atoms():
+    if a.kind in ("min", "max", "abs"):
+      for x in a.args:
+        if isinstance(x, Const):
+          continue
+        out |= leaf_atoms(x)
+    else:
+      out.add(a)
+  return out
+
+
+def leaf_consts(p):
+  out = set()
+  for a in as_poly(p).atoms():
+    if a.kind in ("min", "max", "abs"):
+      for x in a.args:
+        xp = as_poly(x) if not isinstance(x, Const) else Poly.const(int(x.v))
+        cv = xp.constval()
+        if cv.denominator == 1:
+          out.add(int(cv))
+          out.add(-int(cv))
+        out |= leaf_consts(xp)
+  return out
+
+
 def collect(conds):
   """atoms and integer constants occurring in comparison operands."""
   atoms, consts = set(), set()
@@ -70,7 +105,8 @@ def collect(conds):
             consts.add(int(side.v))
           continue
         p = as_poly(side)
-        atoms |= p.atoms()
+        atoms |= leaf_atoms(p)
+        consts |= leaf_consts(p)
         i = p.as_int()
         if i is not None:
           consts.add(i)
@@ -217,7 +253,7 @@ def equivalent_mixed(pos_paths, spec, mains=(), bool_atoms=(), limit=400000):
       if bool_key(a) is None:
         for side in (a[2], a[3]):
           if not isinstance(side, Const):
-            num_atoms |= as_poly(side).atoms()
+            num_atoms |= leaf_atoms(side)
   main_atoms = []
   for m in mains:
     ma = as_poly(m).as_atom()
